@@ -409,3 +409,64 @@ Proof.
            assert (HL' : inject_Z (Z.of_nat (S l)) == Mq - inject_Z (Z.of_nat r0)) by (rewrite HmL; ring).
            rewrite HL'. ring.
 Qed.
+
+(* ================================================================== 7. trees *)
+Lemma same_comp_sym l x y : same_comp l x y = same_comp l y x.
+Proof. unfold same_comp. destruct (lookup l x), (lookup l y); try reflexivity. apply Nat.eqb_sym. Qed.
+
+Lemma forallb_ext_all {A} (f g : A -> bool) l : (forall a, f a = g a) -> forallb f l = forallb g l.
+Proof. intros H. induction l as [|a l IH]; [reflexivity|]. cbn. rewrite H, IH. reflexivity. Qed.
+
+(* the rooted forests with the single root 0 are the connected graphs with n-1 edges *)
+Lemma trees_are_forests n : (1 <= n)%nat -> NQ (seq 0 n) [0%nat] == inject_Z (brute n (n - 1)).
+Proof.
+  intros Hn. unfold NQ, brute. rewrite <- all_edges_pairs, <- qsum_count.
+  rewrite <- (sized_sum (fun F => bq (connectedb (seq 0 n) F)) (all_edges n) (n - 1)).
+  apply qsum_map_ext. intros F _. unfold rfb. cbn [length]. rewrite seq_length.
+  replace (Nat.eqb (length F + 1) n) with (Nat.eqb (length F) (n - 1))
+    by (destruct (Nat.eqb_spec (length F) (n - 1)), (Nat.eqb_spec (length F + 1) n); try reflexivity; lia).
+  assert (E : forallb (fun v => existsb (fun r => same_comp (labels (seq 0 n) F) v r) [0%nat]) (seq 0 n) =
+              connectedb (seq 0 n) F).
+  { unfold connectedb. destruct n as [|n']; [lia|]. cbn [seq]. fold (seq 1 n').
+    apply forallb_ext_all. intros v. cbn [existsb]. rewrite orb_false_r. apply same_comp_sym. }
+  rewrite E. destruct (Nat.eqb (length F) (n - 1)), (connectedb (seq 0 n) F); unfold bq; cbn [andb]; ring.
+Qed.
+
+Lemma inject_Z_pow a k : inject_Z (a ^ Z.of_nat k) == qpn (inject_Z a) k.
+Proof.
+  induction k as [|k IH]; [reflexivity|].
+  rewrite Nat2Z.inj_succ, Z.pow_succ_r by lia. rewrite inject_Z_mult, IH. reflexivity.
+Qed.
+
+(* CAYLEY'S FORMULA: the number of labelled trees on n >= 2 vertices is n^(n-2) *)
+Theorem Cayley_formula : forall n, (2 <= n)%nat -> brute n (n - 1) = (Z.of_nat n ^ (Z.of_nat n - 2))%Z.
+Proof.
+  intros n Hn. apply inject_Z_injective.
+  replace (Z.of_nat n - 2)%Z with (Z.of_nat (n - 2)) by lia. rewrite inject_Z_pow.
+  rewrite <- (trees_are_forests n) by lia.
+  pose proof (forest_count n (seq 0 n) [0%nat] (seq_length _ _) (seq_NoDup _ _)) as H.
+  specialize (H ltac:(constructor; [intros [] | constructor])).
+  specialize (H ltac:(intros v [<-|[]]; apply in_seq; lia)).
+  rewrite seq_length in H. cbn [length] in H. change (inject_Z (Z.of_nat 1)) with 1 in H.
+  replace (n - 1)%nat with (S (n - 2)) in H by lia. cbn [qpn] in H.
+  assert (HN : ~ inject_Z (Z.of_nat n) == 0).
+  { intros E. apply (inject_Z_injective (Z.of_nat n) 0) in E. lia. }
+  apply (Qmult_inj_l _ _ (inject_Z (Z.of_nat n)) HN). rewrite H. ring.
+Qed.
+
+Theorem Cayley_holds : Cayley.
+Proof. exact Cayley_formula. Qed.
+
+(* ================================================================== consequences: the count and the clique identity, unbounded *)
+Theorem Q_count_general : forall n k, (1 <= n)%nat -> (0 <= k <= tri (Z.of_nat n))%Z ->
+  Qcode n k = brute n (Z.to_nat k).
+Proof. intros n k Hn Hk. apply (Q_count_from_Cayley Cayley_holds n Hn k Hk). Qed.
+
+Theorem Qv_count_general : forall n k, (1 <= n)%nat -> (0 <= k <= tri (Z.of_nat n))%Z ->
+  Qv n k = brute n (Z.to_nat k).
+Proof. exact (Qv_count_from_Cayley Cayley_holds). Qed.
+
+Theorem clique_identity_general : forall tau, (2 <= tau)%nat ->
+  forall (phi : Q) (Hs : list Q), length Hs = (tau - 1)%nat ->
+    clique_val tau phi Hs == exact_val (seq 0 tau) (all_edges tau) 0 phi (fun v => nth (v - 1) Hs 0).
+Proof. exact (clique_identity_reduces_to_Q_count Qv_count_general). Qed.
